@@ -1,6 +1,7 @@
 package checks
 
 import (
+	"strings"
 	"bufio"
 	"bytes"
 	"encoding/json"
@@ -99,6 +100,82 @@ type C05Case struct {
 	MBL []int
 	// Empty: the source answers one Read with (0, nil) before the first byte and at every cut
 	Empty bool `json:",omitempty"`
+	// OneSided: the stream is read with a private dictionary in which command 9000 has request
+	// rules only: its answer (message 1 of the stream, Sizes[1] body bytes) is rejected, and the
+	// messages after it must still be found at their offsets
+	OneSided bool `json:",omitempty"`
+}
+
+const c05OneSidedXML = `<?xml version="1.0" encoding="UTF-8"?>
+<diameter><application id="0" name="OneSided">
+<command code="9000" short="OS" name="One-Sided"><request><rule avp="OS-Note" required="false"/></request><answer></answer></command>
+<command code="9001" short="TS" name="Two-Sided"><request><rule avp="OS-Note" required="false"/></request><answer><rule avp="OS-Note" required="false"/></answer></command>
+<avp name="OS-Note" code="9901" must="M"><data type="OctetString"/></avp></application></diameter>`
+
+var c05OneSidedParser *dict.Parser
+
+func c05OneSidedEval(cs C05Case) string {
+	if c05OneSidedParser == nil {
+		p, err := dict.NewParser()
+		if err == nil {
+			err = p.Load(strings.NewReader(c05OneSidedXML))
+		}
+		if err != nil {
+			return "" // the dictionary is not accepted: nothing to check
+		}
+		c05OneSidedParser = p
+	}
+	note := func(n int) []refcodec.Node {
+		if n < 8 {
+			return nil
+		}
+		return []refcodec.Node{{Code: 9901, Flags: 0x40, Payload: make([]byte, n-8)}}
+	}
+	msgs := [][]byte{
+		refcodec.EncodeMessage(refcodec.Header{Version: 1, Flags: 0x80, Code: 9001, HbH: 1, E2E: 1}, note(cs.Sizes[0])),
+		refcodec.EncodeMessage(refcodec.Header{Version: 1, Flags: 0x00, Code: 9000, HbH: 2, E2E: 2}, note(cs.Sizes[1])), // the rule-less direction
+		refcodec.EncodeMessage(refcodec.Header{Version: 1, Flags: 0x80, Code: 9000, HbH: 3, E2E: 3}, note(cs.Sizes[2])),
+		refcodec.EncodeMessage(refcodec.Header{Version: 1, Flags: 0x00, Code: 9001, HbH: 4, E2E: 4}, note(16)),
+	}
+	var full []byte
+	for _, m := range msgs {
+		full = append(full, m...)
+	}
+	fr := &fragReader{data: full, cuts: cs.Cuts, unit: cs.Unit}
+	var src io.Reader = fr
+	var br *bufio.Reader
+	if cs.Buffered {
+		br = bufio.NewReader(fr)
+		src = br
+	}
+	sum := 0
+	for k, w := range msgs {
+		m, err := diam.ReadMessage(src, c05OneSidedParser)
+		sum += len(w)
+		c := fr.read
+		if br != nil {
+			c -= br.Buffered()
+		}
+		if k == 1 {
+			if err == nil {
+				// accepting it is not a boundary question; the message must then be the right one
+				if m.Header.HopByHopID != 2 {
+					return fmt.Sprintf("message 1 came back with hop-by-hop id %d", m.Header.HopByHopID)
+				}
+			}
+		} else if err != nil {
+			return fmt.Sprintf("message %d of 4 (after the rejected answer of a command whose dictionary entry has request rules only): ReadMessage failed: %v", k, err)
+		} else if m.Header.HopByHopID != uint32(k+1) || m.Len() != len(w) {
+			return fmt.Sprintf("message %d of 4: got hop-by-hop id %d and %d bytes, sent %d and %d", k, m.Header.HopByHopID, m.Len(), k+1, len(w))
+		}
+		if c != sum {
+			return fmt.Sprintf("after message %d (message 1 is rejected: its command has no rules for answers): %d bytes consumed from the source, declared lengths sum to %d", k, c, sum)
+		}
+	}
+	if _, err := diam.ReadMessage(src, c05OneSidedParser); err != io.EOF {
+		return fmt.Sprintf("after the last message: %v, expected io.EOF", err)
+	}
+	return ""
 }
 
 func (c C05Case) Desc() string {
@@ -107,6 +184,9 @@ func (c C05Case) Desc() string {
 	}
 	if len(c.MBL) > 0 {
 		return fmt.Sprintf("bodies=%v bufio=%v, diam.MessageBufferLength set to %v before the respective read", c.Sizes, c.Buffered, c.MBL)
+	}
+	if c.OneSided {
+		return fmt.Sprintf("private dictionary with a request-only command; bodies=%v (message 1 is its answer) cuts=%v unit=%d bufio=%v", c.Sizes, c.Cuts, c.Unit, c.Buffered)
 	}
 	if c.Empty {
 		return fmt.Sprintf("bodies=%v cuts=%v bufio=%v trunc=%d, one empty read (0, nil) before the first byte and at every cut", c.Sizes, c.Cuts, c.Buffered, c.Trunc)
@@ -172,6 +252,9 @@ func (c C05Case) stream() (full []byte, msgs [][]byte) {
 
 func c05Eval(cs C05Case) string {
 	return safely(func() string {
+		if cs.OneSided {
+			return c05OneSidedEval(cs)
+		}
 		full, _ := cs.stream()
 		want, tail := refcodec.SplitStream(full)
 		fr := &fragReader{data: full, cuts: cs.Cuts, unit: cs.Unit, eofData: cs.EOFData, empty: cs.Empty}
@@ -422,6 +505,20 @@ func c05Enum(ctx *ev.Ctx, fn func(C05Case)) string {
 			emit(c)
 		}
 	}
+	// a message the dictionary rejects because its command has no rules for that direction, between
+	// messages that are fine: it is consumed to its declared length like any other
+	for _, a := range []int{0, 16, 1100} {
+		for _, b := range []int{8, 16, 200, 1100, 5000} {
+			for _, d := range []int{0, 16} {
+				for _, buffered := range []bool{false, true} {
+					for _, unit := range []int{0, 1, 7} {
+						emit(C05Case{Sizes: []int{a, b, d}, Buffered: buffered, Unit: unit, Trunc: -1, BadLen: -1, OneSided: true})
+					}
+					emit(C05Case{Sizes: []int{a, b, d}, Buffered: buffered, Cuts: []int{20 + a + 10, 20 + a + 20}, Trunc: -1, BadLen: -1, OneSided: true})
+				}
+			}
+		}
+	}
 	// declared length 0..19 as the very first header
 	for l := 0; l < 20; l++ {
 		for _, buffered := range []bool{false, true} {
@@ -547,7 +644,7 @@ func c05Enum(ctx *ev.Ctx, fn func(C05Case)) string {
 			}
 		}
 	}
-	return "all sequences of <=3 messages over body sizes {0,8,1016,1024,1028,4100,70000}; a message of 1 MiB - 4, 1 MiB, 1 MiB + 32 / 64 / 4096, 2 MiB, 3 MiB + 1044, 8 MiB and 16 MiB - 4 bytes between two short ones (uncut, 4093-byte reads, cut inside its header and at the MiB mark, truncated one byte early); read through a scripted io.Reader and through bufio.NewReader on top of it; all cut vectors with <=2 (thorough 3) cuts - every offset for streams <=200 bytes, otherwise every offset within +-3 (thorough: +-24 for single messages) of a message border, header/body border, 1 KiB and 4 KiB boundary (quick: three large messages or more than 120 candidate offsets: <=1 cut; thorough: 3 cuts where the candidate set has <=70 offsets and no 70 000-byte message is involved, otherwise 2, and 1 for three messages including the 70 000-byte one); uniform 1..40-byte readers; truncation at every such offset (plain, 7-byte reads, and with one earlier cut for short streams); a header declaring each length 0..19 followed by 40 more bytes after every sequence of <=2 messages and as the first header. and messages whose last AVP declares 1..2000 bytes more than the (truthful) message holds, between two other messages: rejected, following message still read at its offset.; every message of the uncut cases also read from a source of its own overlapping with a read from another source after an oversize message; the base and single-cut cases also with a source that returns io.EOF together with the last bytes; the base, single-cut and two-cut cases also with a source that answers one Read with (0, nil) before the first byte and at every cut; sequences of <=3 messages with bodies from {9, 29, 1017, 1023, 8, 1024} containing at least one whose declared length is not a multiple of four (last AVP sent unpadded); all histories of <=3 reads over bodies {8,600,1016,2036,5000} with diam.MessageBufferLength set to one of {1024,4096,512} before each read. Distinct by (sizes, cuts, unit, bufio, truncation, bad length, overstatement, EOF mode, empty reads, buffer lengths)."
+	return "all sequences of <=3 messages over body sizes {0,8,1016,1024,1028,4100,70000}; a message of 1 MiB - 4, 1 MiB, 1 MiB + 32 / 64 / 4096, 2 MiB, 3 MiB + 1044, 8 MiB and 16 MiB - 4 bytes between two short ones (uncut, 4093-byte reads, cut inside its header and at the MiB mark, truncated one byte early); read through a scripted io.Reader and through bufio.NewReader on top of it; all cut vectors with <=2 (thorough 3) cuts - every offset for streams <=200 bytes, otherwise every offset within +-3 (thorough: +-24 for single messages) of a message border, header/body border, 1 KiB and 4 KiB boundary (quick: three large messages or more than 120 candidate offsets: <=1 cut; thorough: 3 cuts where the candidate set has <=70 offsets and no 70 000-byte message is involved, otherwise 2, and 1 for three messages including the 70 000-byte one); uniform 1..40-byte readers; truncation at every such offset (plain, 7-byte reads, and with one earlier cut for short streams); a header declaring each length 0..19 followed by 40 more bytes after every sequence of <=2 messages and as the first header. and messages whose last AVP declares 1..2000 bytes more than the (truthful) message holds, between two other messages: rejected, following message still read at its offset.; every message of the uncut cases also read from a source of its own overlapping with a read from another source after an oversize message; the base and single-cut cases also with a source that returns io.EOF together with the last bytes; the base, single-cut and two-cut cases also with a source that answers one Read with (0, nil) before the first byte and at every cut; sequences of <=3 messages with bodies from {9, 29, 1017, 1023, 8, 1024} containing at least one whose declared length is not a multiple of four (last AVP sent unpadded); all histories of <=3 reads over bodies {8,600,1016,2036,5000} with diam.MessageBufferLength set to one of {1024,4096,512} before each read. Also a private dictionary in which one command has request rules only: its answer (bodies 8..5000 bytes), between well-formed messages, is consumed to its declared length whatever ReadMessage says about it. Distinct by (sizes, cuts, unit, bufio, truncation, bad length, overstatement, EOF mode, empty reads, buffer lengths)."
 }
 
 func runC05(ctx *ev.Ctx) {
